@@ -54,6 +54,13 @@ func (c06) Gen(seed int64, tier string, avoid []string) *Plan {
 		n = pick(r, 60, 300, 1500)
 	}
 	longInterval := chance(r, 40) && !avoidSet["c06-interval>8192"]
+	// a history longer than the 8192-number receive window that then crosses the sequence wrap with a loss burst
+	// on it (stale bits from one window earlier must not count as received)
+	longHistory := !longInterval && chance(r, 30)
+	if longHistory {
+		ns = 1
+		n = 8300 + r.Intn(3000)
+	}
 	var ops []c06Op
 	var end int64
 	for s := 0; s < ns; s++ {
@@ -76,11 +83,18 @@ func (c06) Gen(seed int64, tier string, avoid []string) *Plan {
 		default:
 			ts = r.Uint32() / 2
 		}
+		if longHistory {
+			seq = uint16(65536 - (8200 + r.Intn(n-8250)))
+		}
+		burstAt, burstLen := uint16(65530+r.Intn(5)), uint16(3+r.Intn(6))
 		dropP := pick(r, 0, 20, 100, 300)
 		dupP := pick(r, 0, 0, 50)
 		reoP := pick(r, 0, 0, 100, 300)
 		errP := pick(r, 0, 0, 20)
 		spacing := int64(pick(r, 1000, 5000, 20000))
+		if longHistory {
+			spacing, dropP, reoP = 1000, pick(r, 0, 20), pick(r, 0, 50)
+		}
 		at := int64(r.Intn(5)) * 1000
 		for i := 0; i < n; i++ {
 			at += spacing
@@ -92,7 +106,7 @@ func (c06) Gen(seed int64, tier string, avoid []string) *Plan {
 			} else if chance(r, 5) {
 				seq += uint16(r.Intn(300))
 			}
-			if chance(r, dropP) {
+			if chance(r, dropP) || (longHistory && cur-burstAt < burstLen) {
 				continue
 			}
 			t := at + int64(r.Intn(3))*500
